@@ -18,6 +18,7 @@ func init() {
 		{Name: "username-password-flag-constants-swapped", Rule: "R2.6", Where: "const PasswordFlag", Edits: []Edit{{"connect.go", "\tPasswordFlag\n\tUsernameFlag\n", "\tUsernameFlag\n\tPasswordFlag\n"}}},
 		{Name: "encoder-writes-flags-shifted", Rule: "R2.3", Where: "Connect", Edits: []Edit{{"connect.go", "\ti += p.flags.fill(b, i)                      // Flags", "\ti += (p.flags >> 1).fill(b, i)                      // Flags"}}},
 		{Name: "will-qos-bits-not-cleared-on-replacement", Rule: "R2.3", Where: "Connect", Edits: []Edit{{"connect.go", "bits(^(WillQoS2 | WillQoS1))", "bits(^WillQoS2 | WillQoS1)"}}},
+		{Name: "will-properties-through-publish-encoder", Rule: "R2.1", Where: "Connect", Edits: []Edit{{"connect.go", "\t\t\ti += p.will.payloadFormat.fillProp(b, i, PayloadFormatIndicator)\n\t\t\ti += p.will.messageExpiryInterval.fillProp(b, i, MessageExpiryInterval)\n\t\t\ti += p.will.contentType.fillProp(b, i, ContentType)\n\t\t\ti += p.will.responseTopic.fillProp(b, i, ResponseTopic)\n\t\t\ti += p.will.correlationData.fillProp(b, i, CorrelationData)\n\t\t\ti += p.will.UserProperties.properties(b, i)\n", "\t\t\ti += p.will.properties(b, i)\n"}}},
 		{Name: "reason-string-under-wrong-id", Rule: "R2.1", Where: "Auth", Edits: []Edit{{"auth.go", "\ti += p.reasonString.fillProp(b, i, ReasonString)", "\ti += p.reasonString.fillProp(b, i, ServerReference)"}}},
 		{Name: "remaining-length-omits-properties", Rule: "R2.4", Where: "ConnAck", Edits: []Edit{{"connack.go", "\ti += vbint(p.variableHeader(_LEN, 0)).fill(b, i) // remaining length", "\ti += vbint(2).fill(b, i) // remaining length"}}},
 		{Name: "property-length-omits-user-properties", Rule: "R2.4", Where: "Publish", Edits: []Edit{
@@ -200,13 +201,34 @@ func checkC02(p *Prog, c *Check) {
 		var will *packetState
 		n := 0
 		wf := p.Method(tn, "WellFormed")
-		for _, spec := range p.stateSpecs(tn) {
+		specs := p.stateSpecs(tn)
+		// CONNECT: the will may be any PUBLISH the API can build, also one carrying what a will cannot carry on
+		// the wire (topic alias, subscription identifiers, packet identifier, DUP): those must not be written
+		var fullWill *packetState
+		for _, spec := range append([]stateSpec(nil), specs...) {
+			if spec.will == 1 && (strings.HasPrefix(spec.name, "all+will") || strings.HasPrefix(spec.name, "none+will")) {
+				fw := spec
+				fw.name = spec.name + " (will built with every PUBLISH setter)"
+				fw.will = 2
+				specs = append(specs, fw)
+			}
+		}
+		for _, spec := range specs {
 			if spec.will == 1 && will == nil {
 				will, _ = p.willState()
+			}
+			if spec.will == 2 && fullWill == nil {
+				fullWill, _ = p.buildState("Publish", func(string) int { return 0 }, nil)
 			}
 			var wp *packetState
 			if spec.will == 1 {
 				wp = will
+			}
+			if spec.will == 2 {
+				wp = fullWill
+				if wp == nil {
+					continue
+				}
 			}
 			choose := func(s string) int {
 				if s == "SetProtocolName" || s == "SetProtocolVersion" {
